@@ -5,8 +5,8 @@
 void h_ilu_dpivotL(void)
 {
     int jcol, diagind;
-#if defined(IPV_U1)
-    /* variant U1: the contract requires u == 1.0; 1.0 has exactly one bit pattern, so passing the literal is the same
+#if defined(IPV_U1A) || defined(IPV_U1B)
+    /* variants U1A/U1B: the contract requires u == 1.0; 1.0 has exactly one bit pattern, so passing the literal is the same
      * input set - it only lets the tool fold the constant operand of thresh = u * pivmax before bit-blasting */
     double u = 1.0;
 #else
